@@ -43,6 +43,23 @@ def instantiate(
             for output in node.outputs:
                 if output is not None and output.name:
                     output.name = prefix + output.name
+            # The Cloner copies the input names of a cloned subgraph (Loop/Scan/If body)
+            # unchanged. Prefix them as well: otherwise they capture a value of the graph
+            # the function is inlined into that happens to have the same name, and two
+            # inlined copies of the function repeat them.
+            for attr in node.attributes.values():
+                if attr.is_ref():
+                    continue
+                if attr.type == ir.AttributeType.GRAPH:
+                    subgraphs = [attr.as_graph()]
+                elif attr.type == ir.AttributeType.GRAPHS:
+                    subgraphs = list(attr.as_graphs())
+                else:
+                    continue
+                for subgraph in subgraphs:
+                    for graph_input in subgraph.inputs:
+                        if graph_input.name:
+                            graph_input.name = prefix + graph_input.name
 
     cloner = Cloner(
         attr_map=attributes,
